@@ -1,10 +1,14 @@
 (* C39 - The memory budget is a hard limit.
    Property theorems only.  Model: Model/Budget.v (MemoryBudget::allocate / release at the
-   granularity of single atomic loads and compare-exchanges; constants regenerated from
-   src/config/constants.rs).  [run (step_w lk) w s]: w is ANY list of naturals - entry 2t is a
-   step of thread t, entry 2t+1 a spurious failure of thread t's compare_exchange_weak - so each
-   theorem covers every number of threads, every interleaving and every length.
-   lk = false: the code as it is; lk = true: allocate under a mutex (the proposed repair). *)
+   granularity of single atomic loads, compare-exchanges and the mutex acquisition; constants
+   regenerated from src/config/constants.rs).  [run (step_w lk) w s]: w is ANY list of naturals -
+   entry 2t is a step of thread t, entry 2t+1 a spurious failure of thread t's
+   compare_exchange_weak - so each theorem covers every number of threads, every interleaving
+   and every length.
+   lk = true : the code as it is (allocate's check-and-CAS under the mutex alloc_lock, /repo
+               commit 0306f36); the correspondence run compares the real code with this variant;
+   lk = false: the lock-free allocate before that commit, kept as documentation of why the lock
+               is needed. *)
 From Coq Require Import ZArith List Bool Arith.
 From TV Require Import Lib.Interleave Gen.BudgetConsts Model.Budget
   Proof.Budget Proof.BudgetInv Proof.BudgetLimit Proof.BudgetRepair Proof.BudgetClient.
@@ -16,6 +20,22 @@ Open Scope Z_scope.
 Theorem coarse_runs_are_runs :
   forall lk fuel sched s, exists w, run_coarse (step lk) at_site fuel sched s = run (step_w lk) w s.
 Proof. exact run_coarse_is_run_w. Qed.
+
+(* THE PROPERTY: successful allocations never bring total tracked usage above the configured
+   limit - total_used <= total_limit in every reachable state, for every program, schedule and
+   number of threads *)
+Theorem budget_hard_limit :
+  forall limreq ps w, progs_wf ps = true ->
+    let s := run (step_w true) w (init limreq ps) in total (sh s) <= lim s.
+Proof. exact budget_hard_limit_l. Qed.
+
+(* ... because at most one thread is between allocate's first counter load and its CAS *)
+Theorem allocate_mutual_exclusion :
+  forall limreq ps w t u th thu, progs_wf ps = true ->
+    let s := run (step_w true) w (init limreq ps) in
+    lget (thrs s) t = Some th -> lget (thrs s) u = Some thu ->
+    in_body (tpc th) = true -> in_body (tpc thu) = true -> t = u.
+Proof. exact allocate_mutual_exclusion_l. Qed.
 
 (* Each pool's usage is exactly what the completed calls did to it (a successful allocate adds
    n, a release subtracts min(n, counter)) - nothing is lost or counted twice under any
@@ -68,71 +88,71 @@ Theorem counters_in_range :
     forall q, 0 <= get (sh (run (step_w lk) w (init limreq ps))) q < U64.
 Proof. exact counters_in_range_l. Qed.
 
-(* The limit, for the code as it is (and for the repair): the total can only get above the
-   limit through a successful allocation whose snapshot had gone stale before its CAS
-   (class 1: another pool's counter grew; class 2: the own pool's counter grew and came back). *)
-Theorem limit_unless_stale :
-  forall lk limreq ps w, progs_wf ps = true ->
-    let s := run (step_w lk) w (init limreq ps) in
+(* ---- Why the mutex is needed: the lock-free allocate BEFORE /repo commit 0306f36 (lk = false).
+   Its total could get above the limit only through a successful allocation whose snapshot had
+   gone stale before its CAS (class 1: another pool's counter grew; class 2: the own pool's
+   counter grew and came back) ... *)
+Theorem lockfree_limit_unless_stale :
+  forall limreq ps w, progs_wf ps = true ->
+    let s := run (step_w false) w (init limreq ps) in
     all_events nonstale s = true -> total (sh s) <= lim s.
-Proof. exact limit_unless_stale_l. Qed.
+Proof. exact (limit_unless_stale_l false). Qed.
 
-(* both kinds of stale decision happen in the code as it is (finding F-C39-1 / F-C39-2; the
-   schedules are the witnesses replayed on the real MemoryBudget by the harness) *)
-Theorem limit_refuted_cross_pool :
+(* ... and both kinds of stale decision were reachable (findings F-C39-1 / F-C39-2, fixed by
+   0306f36; the same schedules are replayed on the real MemoryBudget on every run and must now
+   stay within the limit) *)
+Theorem lockfree_limit_refuted_cross_pool :
   let s := run_coarse (step false) at_site 64 cross_sched (init 4194304 (number 0 cross_progs)) in
   lim s = 4194304 /\ total (sh s) = 6291456 /\ last_class s 1 = 1.
 Proof. exact limit_refuted_cross_pool_l. Qed.
 
-Theorem limit_refuted_same_pool_aba :
+Theorem lockfree_limit_refuted_same_pool_aba :
   let s := run_coarse (step false) at_site 64 aba_sched (init 4194304 (number 0 aba_progs)) in
   lim s = 4194304 /\ total (sh s) = 4718592 /\ last_class s 0 = 2.
 Proof. exact limit_refuted_same_pool_aba_l. Qed.
 
-(* a single thread (any program, spurious CAS failures included) never exceeds the limit *)
+(* ... while a single thread never exceeded it, with or without the mutex *)
 Theorem single_thread_within_limit :
   forall lk limreq ps t0 w, progs_wf ps = true ->
     (forall x, In x w -> Nat.div2 x = t0) ->
     let s := run (step_w lk) w (init limreq ps) in total (sh s) <= lim s.
 Proof. exact single_thread_within_limit_l. Qed.
 
-(* THE REPAIR: with allocate's check-and-CAS under one mutex (release still lock-free) the
-   budget is a hard limit in every reachable state *)
-Theorem repaired_within_limit :
-  forall limreq ps w, progs_wf ps = true ->
-    let s := run (step_w true) w (init limreq ps) in total (sh s) <= lim s.
-Proof. exact repaired_within_limit_l. Qed.
-
-Theorem repaired_mutual_exclusion :
-  forall limreq ps w t u th thu, progs_wf ps = true ->
-    let s := run (step_w true) w (init limreq ps) in
-    lget (thrs s) t = Some th -> lget (thrs s) u = Some thu ->
-    in_body (tpc th) = true -> in_body (tpc thu) = true -> t = u.
-Proof. exact repaired_mutual_exclusion_l. Qed.
-
-(* non-vacuity: the hypotheses are met by runs that do something; a saturating release and a
-   stale decision are both detected by the predicates the theorems use *)
+(* non-vacuity: the hypotheses are met by runs that do something *)
 Example c39_witness :
   progs_wf (number 0 cross_progs) = true /\ progs_wf (number 0 aba_progs) = true /\
-  (* sequential run: first allocate succeeds, second fails, nothing stale, total = 3 MiB *)
-  (let s := run_coarse (step false) at_site 64 [0; 0; 0; 0; 1; 1; 1; 1]%nat (init 4194304 (number 0 cross_progs)) in
-   all_events nonstale s = true /\ all_events (fun e => negb (saturating e)) s = true /\ total (sh s) = 3145728) /\
-  (* the racy runs are flagged stale *)
-  all_events nonstale (run_coarse (step false) at_site 64 cross_sched (init 4194304 (number 0 cross_progs))) = false /\
+  (* the two former witnesses on the code as it is (schedule, then both threads to completion):
+     the second allocator waits for the mutex and is then refused *)
+  (let s := run_coarse (step true) at_site 64 (cross_sched ++ [0; 0; 1; 1; 1; 1])%nat (init 4194304 (number 0 cross_progs)) in
+   total (sh s) = 3145728 /\ all_events nonstale s = true) /\
+  (let s := run_coarse (step true) at_site 64 (aba_sched ++ [1; 1; 1; 1; 1; 1; 0; 0; 0; 0; 0])%nat (init 4194304 (number 0 aba_progs)) in
+   total (sh s) = 1048576 /\ all_events nonstale s = true) /\
+  (* a thread parked in front of the held mutex cannot move *)
+  (let s := run_coarse (step true) at_site 64 [0; 0; 1]%nat (init 4194304 (number 0 cross_progs)) in
+   step true 1 s = None /\ lock s = Some 0%nat) /\
   (* allocate / release / allocate by one thread: everything released => 0 in between *)
-  (let s := run_coarse (step false) at_site 64 [0; 0; 0; 0; 0]%nat
+  (let s := run_coarse (step true) at_site 64 [0; 0; 0; 0; 0; 0]%nat
               (init 0 (number 0 [[Alloc PQuery 1000; ReleaseIf 0 PQuery 1000; Alloc PQuery 7]])) in
    disciplined s = true /\ all_events (fun e => negb (saturating e)) s = true /\ total (sh s) = 0) /\
   (* a release of more than the pool holds saturates and is flagged, and the client is not disciplined *)
-  (let s := run_coarse (step false) at_site 64 [0; 0]%nat (init 0 (number 0 [[Release PCache 5]])) in
+  (let s := run_coarse (step true) at_site 64 [0; 0]%nat (init 0 (number 0 [[Release PCache 5]])) in
    all_events (fun e => negb (saturating e)) s = false /\ disciplined s = false) /\
-  (* the repaired model blocks the second allocator instead of letting it decide on a stale snapshot *)
-  (let s := run_coarse (step true) at_site 64 (cross_sched ++ [0; 0; 1; 1; 1; 1])%nat (init 4194304 (number 0 cross_progs)) in
-   total (sh s) = 3145728 /\ all_events nonstale s = true).
+  (* lock-free variant: the racy run is flagged stale, the sequential one is not *)
+  all_events nonstale (run_coarse (step false) at_site 64 cross_sched (init 4194304 (number 0 cross_progs))) = false /\
+  (let s := run_coarse (step false) at_site 64 [0; 0; 0; 0; 1; 1; 1; 1]%nat (init 4194304 (number 0 cross_progs)) in
+   all_events nonstale s = true /\ total (sh s) = 3145728).
 Proof. vm_compute. repeat split. Qed.
 
 Check coarse_runs_are_runs :
   forall lk fuel sched s, exists w, run_coarse (step lk) at_site fuel sched s = run (step_w lk) w s.
+Check budget_hard_limit :
+  forall limreq ps w, progs_wf ps = true ->
+    let s := run (step_w true) w (init limreq ps) in total (sh s) <= lim s.
+Check allocate_mutual_exclusion :
+  forall limreq ps w t u th thu, progs_wf ps = true ->
+    let s := run (step_w true) w (init limreq ps) in
+    lget (thrs s) t = Some th -> lget (thrs s) u = Some thu ->
+    in_body (tpc th) = true -> in_body (tpc thu) = true -> t = u.
 Check pool_accounting_applied :
   forall lk limreq ps w q,
     let s := run (step_w lk) w (init limreq ps) in
@@ -160,39 +180,31 @@ Check disciplined_accounting_exact :
 Check counters_in_range :
   forall lk limreq ps w, progs_wf ps = true ->
     forall q, 0 <= get (sh (run (step_w lk) w (init limreq ps))) q < U64.
-Check limit_unless_stale :
-  forall lk limreq ps w, progs_wf ps = true ->
-    let s := run (step_w lk) w (init limreq ps) in
+Check lockfree_limit_unless_stale :
+  forall limreq ps w, progs_wf ps = true ->
+    let s := run (step_w false) w (init limreq ps) in
     all_events nonstale s = true -> total (sh s) <= lim s.
-Check limit_refuted_cross_pool :
+Check lockfree_limit_refuted_cross_pool :
   let s := run_coarse (step false) at_site 64 cross_sched (init 4194304 (number 0 cross_progs)) in
   lim s = 4194304 /\ total (sh s) = 6291456 /\ last_class s 1 = 1.
-Check limit_refuted_same_pool_aba :
+Check lockfree_limit_refuted_same_pool_aba :
   let s := run_coarse (step false) at_site 64 aba_sched (init 4194304 (number 0 aba_progs)) in
   lim s = 4194304 /\ total (sh s) = 4718592 /\ last_class s 0 = 2.
 Check single_thread_within_limit :
   forall lk limreq ps t0 w, progs_wf ps = true ->
     (forall x, In x w -> Nat.div2 x = t0) ->
     let s := run (step_w lk) w (init limreq ps) in total (sh s) <= lim s.
-Check repaired_within_limit :
-  forall limreq ps w, progs_wf ps = true ->
-    let s := run (step_w true) w (init limreq ps) in total (sh s) <= lim s.
-Check repaired_mutual_exclusion :
-  forall limreq ps w t u th thu, progs_wf ps = true ->
-    let s := run (step_w true) w (init limreq ps) in
-    lget (thrs s) t = Some th -> lget (thrs s) u = Some thu ->
-    in_body (tpc th) = true -> in_body (tpc thu) = true -> t = u.
 
 Print Assumptions coarse_runs_are_runs.
+Print Assumptions budget_hard_limit.
+Print Assumptions allocate_mutual_exclusion.
 Print Assumptions pool_accounting_applied.
 Print Assumptions pool_accounting_exact.
 Print Assumptions all_released_zero.
 Print Assumptions release_saturates_only_on_misuse.
 Print Assumptions disciplined_accounting_exact.
 Print Assumptions counters_in_range.
-Print Assumptions limit_unless_stale.
-Print Assumptions limit_refuted_cross_pool.
-Print Assumptions limit_refuted_same_pool_aba.
+Print Assumptions lockfree_limit_unless_stale.
+Print Assumptions lockfree_limit_refuted_cross_pool.
+Print Assumptions lockfree_limit_refuted_same_pool_aba.
 Print Assumptions single_thread_within_limit.
-Print Assumptions repaired_within_limit.
-Print Assumptions repaired_mutual_exclusion.
